@@ -48,7 +48,7 @@ namespace
   // code itself) forks a *runner child at the case it needs a verdict for*; the child continues the very same
   // enumeration from that point in-process, appending one verdict per case to a shared log, and exits at the end
   // of the enumeration. The worker waits, then goes on enumerating and consumes the verdicts. If the child died
-  // (abort / sanitizer report / SEGV / 30 s alarm) the case it was working on gets the verdict 'crash' or 'hang'
+  // (abort / sanitizer report / SEGV / 120 s alarm) the case it was working on gets the verdict 'crash' or 'hang'
   // with the signal, and a fresh child is forked at the next case. So: one fork per crash, exact attribution,
   // and every child starts from the clean state of the worker.
   // ------------------------------------------------------------------------------------------------
@@ -103,7 +103,7 @@ namespace
       hdr()->cur = idx;
       hdr()->phase = 0; phase_ptr() = &hdr()->phase; phase_base() = 0;
       if(errfd >= 0) { if(ftruncate(errfd, 0) != 0) {} lseek(errfd, 0, SEEK_SET); }
-      alarm(30);
+      alarm(120);
     }
     void child_setup()
     {
@@ -133,7 +133,7 @@ namespace
   };
   Log g_log;
 
-  const char* signame(int s) { return s == SIGABRT ? "SIGABRT (assertion / sanitizer report)" : s == SIGSEGV ? "SIGSEGV" : s == SIGALRM ? "SIGALRM (no termination within 30 s)" : s == SIGBUS ? "SIGBUS" : s == SIGFPE ? "SIGFPE" : "signal"; }
+  const char* signame(int s) { return s == SIGABRT ? "SIGABRT (assertion / sanitizer report)" : s == SIGSEGV ? "SIGSEGV" : s == SIGALRM ? "SIGALRM (no termination within 120 s)" : s == SIGBUS ? "SIGBUS" : s == SIGFPE ? "SIGFPE" : "signal"; }
 
   /// maps (failure kind, message, stderr of a crashed child) to a key; empty = use the default "<key> :: <kind>"
   typedef std::function<std::string(const std::string&, const std::string&, const std::string&)> Rekey;
@@ -493,6 +493,8 @@ int main(int argc, char** argv)
   spec.rule = "cases = (seed file, one fault): T every truncation; B every byte position x byte alphabet (substitution) and every byte deletion; "
     "L every line deleted / duplicated; N every numeric token x {+1,-1,0,-1 literal,2^63,2^32,1e9,non-numeric,junk suffix,1e400}; "
     "S every declared count, dimension, index, type, reference violated one at a time, every element block deleted / duplicated / moved, a comment line (well-formed / unterminated) after every line; "
+    "R re-invocation on filled objects: seed then each of its top-level blocks as a second file into the same node/atlas/partition set (existing chart/mesh/mesh part must be rejected and leave the objects unchanged, partitions are added), "
+    "block file then seed, block file twice, every (quick: every 3rd) truncation of the seed as second file; "
     "A every attribute of every markup deleted, every pair of attributes of a markup deleted, all deleted, renamed to an undeclared name sorting before/after (a0,zz,a_,zz_), an undeclared attribute added, given twice -- "
     "mandatory/optional taken from a table in the harness transcribed from the parser classes' attribs() declarations; X scanner grammar: every declaration of 4 attribute names as absent/optional/mandatory x every given subset; "
     "D2 (thorough) every pair of byte substitutions on the smallest seed; the same T/B/L families on the INI seeds. "
@@ -501,7 +503,7 @@ int main(int argc, char** argv)
     "and 3 INI seeds; byte alphabet of 14 bytes: < > / \" = space newline 0 9 - . x NUL 0xFF";
   spec.bounds_thorough = "as quick with all 256 byte values at every position, and depth-2 (pairs of substitutions over < \" space 0) on the smallest seed";
   spec.assumptions = {
-    "required outcome of every case: parsed, or Xml::SyntaxError/GrammarError/ContentError, MeshNodeLinkerError, FileError/ParseError/SyntaxError(PropertyMap), or std::bad_alloc/length_error for counts the machine cannot hold; anything else (other exception, signal, sanitizer report, 30 s alarm) is a violation",
+    "required outcome of every case: parsed, or Xml::SyntaxError/GrammarError/ContentError, MeshNodeLinkerError, FileError/ParseError/SyntaxError(PropertyMap), or std::bad_alloc/length_error for counts the machine cannot hold; anything else (other exception, signal, sanitizer report, 120 s alarm) is a violation",
     "faults that provably violate the format (truncation before the end of the root terminator, deleted/duplicated counted content line or markup line, count/dimension/index/type/reference mutations of class S, non-numeric text in a numeric field) must be rejected",
     "every accepted input must be a fixed point of write o parse (byte identity of the second write)",
     "operator new is replaced by a version that throws std::bad_alloc above 512 MB (ASan's own operator new cannot throw); malloc stays ASan's",
@@ -510,6 +512,7 @@ int main(int argc, char** argv)
   };
   spec.deadline_quick_s = 500; spec.deadline_thorough_s = 3000;
   spec.max_fail_per_worker = 4000; spec.max_report = 40;
+  spec.case_timeout_s = 300;
 
   // ---- seeds (smallest first)
   const char* root_env = std::getenv("VERIF_ROOT");
@@ -628,7 +631,7 @@ int main(int argc, char** argv)
         reps.emplace_back("4294967296", EX_ANY);
         reps.emplace_back("2147483648", EX_ANY);
         reps.emplace_back("1000000000", EX_ANY);
-        reps.emplace_back("100000", EX_ANY);
+        reps.emplace_back("30000", EX_ANY);
         reps.emplace_back("abc", EX_REJECT);
         reps.emplace_back("", EX_ANY);
         reps.emplace_back(tok + "x", EX_ANY);
@@ -1035,6 +1038,53 @@ int main(int argc, char** argv)
             m.insert(pos, " a0x=\"1\"");
             sem("A attribute-added", m, known_tag ? EX_REJECT : EX_ANY, "undeclared attribute added" + lno);
           }
+        }
+      }
+      // ---------------------------------------------------------------- R: parsing INTO a filled node / atlas / partition set
+      {
+        auto run_seq = [&](const std::string& cls, const std::vector<std::string>& texts, int expect_last /*0 any, 1 must be rejected + unchanged, 2 must be accepted*/, const std::string& what)
+        {
+          // caller checked c.want()
+          if(!g_log.child) c.desc([&]{ return "mesh seed " + sm.name + " | " + cls + " | " + what + " | last text=" + printable(texts.back(), 1500); });
+          const std::string key = sm.name + " " + cls;
+          dispatch(c, key, "R", [&]{ return what; }, [&](Verdict& r){
+            SeqResult sr;
+            parse_sequence(sm.default_type, texts, false, true, sr);
+            r.parses = int(texts.size());
+            r.kind = sr.kinds.back();
+            for(size_t i = 0; i < sr.kinds.size(); ++i)
+              if(sr.kinds[i] != K_OK && !rejected_cleanly(sr.kinds[i]))
+                r.fails.emplace_back(std::string("undocumented exception ") + kind_name(sr.kinds[i]), "step " + itos((long long)i + 1) + " terminated with " + sr.whats[i]);
+            if(expect_last == 1)
+            {
+              if(sr.kinds.back() == K_OK) r.fails.emplace_back("accepted", "a block that already exists in the filled node/atlas was parsed again without error (" + what + ")");
+              else if(sr.canons.back() != sr.canons[sr.canons.size() - 2]) r.fails.emplace_back("changed", "the rejected parse modified the filled node/atlas (" + what + ")");
+            }
+            if(expect_last == 2 && sr.kinds.back() != K_OK)
+              r.fails.emplace_back("rejected", std::string("must be accepted (") + what + "): " + kind_name(sr.kinds.back()) + " " + sr.whats.back());
+            // the node must still be writable, and what is written must be readable
+            Parsed p2 = parse_mesh(sr.written, sm.default_type, true, false);
+            if(p2.kind != K_OK) r.fails.emplace_back("rewrite-rejected", std::string("node written after the sequence is rejected: ") + kind_name(p2.kind) + " " + p2.what);
+          }, Rekey());
+          if(!g_log.child) c.nontrivial(verif::Hash().str("R").str(sm.name).str(cls).str(texts.back()).pod(texts.size()).get());
+        };
+        const std::string rootline = T.substr(sm.lines[0].beg, sm.lines[0].next - sm.lines[0].beg);
+        for(size_t li = 0; li < sm.lines.size(); ++li)
+        {
+          const Line& L = sm.lines[li];
+          if(L.path.size() != 1 || L.tag == "Info" || !(L.kind == Line::closed || (L.kind == Line::open && L.match > int(li)))) continue;
+          const size_t b = L.beg, e = (L.kind == Line::closed) ? L.next : sm.lines[size_t(L.match)].next;
+          const std::string single = rootline + T.substr(b, e - b) + "</FeatMeshFile>\n";
+          const bool dup = (L.tag == "Chart" || L.tag == "Mesh" || L.tag == "MeshPart");
+          if(c.want()) run_seq("R block-into-filled <" + L.tag + ">", {T, single}, dup ? 1 : 2, "seed parsed, then a file holding only its <" + L.tag + "> block (line " + itos((long long)li + 1) + ") into the same objects");
+          if(c.want()) run_seq("R filled-from-block <" + L.tag + ">", {single, T}, 0, "a file holding only the <" + L.tag + "> block, then the whole seed into the same objects");
+          if(c.want()) run_seq("R block-twice <" + L.tag + ">", {single, single}, 0, "a file holding only the <" + L.tag + "> block parsed twice into the same objects");
+        }
+        // every truncation of the seed as SECOND file into the filled objects
+        for(size_t len = 0; len < T.size(); len += (c.thorough ? 1 : 3))
+        {
+          if(!c.want()) continue;
+          run_seq("R truncation-into-filled", {T, T.substr(0, len)}, 0, "seed parsed, then the seed truncated to " + itos((long long)len) + " bytes into the same objects");
         }
       }
       // ---------------------------------------------------------------- S19: comment lines
